@@ -268,3 +268,51 @@ def random_bytes(tier, seed, n=None):
                  {"op": "tick", "d": 9}, {"op": "req", "rq": rq(), "ans": [a304]}, {"op": "tick", "d": 2}, {"op": "req", "rq": rq(), "ans": []}]
         out.append({"id": "rndbytes/%05d" % i, "backend": ["mem", "fs", "fsenc"][i % 3], "opt": {}, "steps": steps, "grp": "", "spv": 0})
     return out
+
+
+def byte_mutations(tier, seed, n=None):
+    """a stored index / entry returned with one byte flipped or truncated at every position"""
+    out = []
+    step = 1 if tier == "thorough" else 5
+    a = ans(ccp=1, ma=100, etag=1, vary=[2])
+    for opn, length in ((1, 140), (2, 520)):
+        for pos in range(0, length, step):
+            for kind in ("flipat", "truncat"):
+                steps = [{"op": "req", "rq": rq(sel=[0, 0, 1, 0]), "ans": [a]}, {"op": "tick", "d": 1},
+                         {"op": "req", "rq": rq(sel=[0, 0, 1, 0]), "ans": [ans(ccp=1, ma=60, etag=2)],
+                          "faults": [{"n": opn, "kind": kind, "pos": pos}]},
+                         {"op": "tick", "d": 1}, {"op": "req", "rq": rq(sel=[0, 0, 1, 0]), "ans": [ans(ccp=1, ma=60, etag=2)]}]
+                out.append({"id": "mut/%d-%s-%04d" % (opn, kind, pos), "backend": "mem", "opt": {}, "steps": steps, "grp": "", "spv": 0})
+    return out
+
+
+def concurrent(tier, seed, n=None):
+    """rounds of concurrent requests on one transport, with stale-while-revalidate refreshes in flight"""
+    r = random.Random(seed * 67867967 + 29)
+    n = n or (40 if tier == "quick" else 600)
+    out = []
+    for i in range(n):
+        steps = []
+        stored = ans(ccp=1, ma=r.choice([3, 5]), swr=r.choice([NONE, 30, 30]), etag=1, vary=r.choice([[], [2]]), lm=r.choice([NONE, 40]))
+        for u in (0, 1):
+            for a_ in (1, 2):
+                steps.append({"op": "req", "rq": rq(u=u, sel=[0, 0, a_, 0]), "ans": [stored]})
+        for rnd in range(r.randrange(2, 5)):
+            steps.append({"op": "tick", "d": r.choice([0, 1, 4, 6])})
+            par = []
+            for _ in range(r.randrange(4, 12)):
+                c = r.random()
+                if c < 0.12:
+                    par.append({"op": "req", "rq": rq(u=r.choice([0, 1]), m=r.choice(["POST", "DELETE", "X-UNKNOWN"])),
+                                "ans": [ans(st=200, ccp=0, etag=0)]})
+                else:
+                    lat = r.choice([0, 0, 0, 1, 2])
+                    va = ans(k="304", st=304, ccp=1, ma=50, etag=1, upd=1, lat=lat) if r.random() < 0.5 else ans(ccp=1, ma=r.choice([3, 60]), etag=2, swr=30, vary=stored["vary"], lat=lat)
+                    par.append({"op": "req", "rq": rq(u=r.choice([0, 0, 1]), sel=[0, 0, r.choice([1, 1, 2, 3]), 0],
+                                                      fl=["no-cache"] if r.random() < 0.1 else []),
+                                "ans": [va, ans(ccp=1, ma=60, etag=2, vary=stored["vary"])]})
+            steps.append({"op": "conc", "par": par})
+        steps.append({"op": "tick", "d": 2})
+        steps.append({"op": "req", "rq": rq(u=0, sel=[0, 0, 1, 0]), "ans": [ans(ccp=1, ma=60, etag=2)]})
+        out.append({"id": "conc/%05d" % i, "backend": "fs" if i % 4 == 3 else "mem", "opt": {}, "steps": steps, "grp": "", "spv": 0})
+    return out
